@@ -135,6 +135,9 @@ pub struct ObjSpec {
     /// 2 middle, 3 end); the object is the whole stream, every transfer re-reads it from its start
     #[serde(default)]
     pub stream_start: u8,
+    /// zero-filled content (see `content`)
+    #[serde(default)]
+    pub sparse: bool,
 }
 
 impl ObjSpec {
@@ -160,9 +163,21 @@ impl ObjSpec {
             target: None,
             immediate_stop: None,
             stream_start: 0,
+            sparse: false,
         }
     }
     pub fn content(&self) -> Vec<u8> {
+        if self.sparse {
+            // zero-filled with a marker every 64 KiB: inflates to hundreds of times its transfer length
+            let mut v = vec![0u8; self.len];
+            for (k, i) in (0..self.len).step_by(65_521).enumerate() {
+                v[i] = self.salt.wrapping_add(k as u8) | 1;
+            }
+            if let Some(l) = v.last_mut() {
+                *l = 0xA5;
+            }
+            return v;
+        }
         if self.text {
             text_bytes(self.len, self.salt)
         } else {
